@@ -95,6 +95,15 @@ func c06Char(c *core.Ctx, r ref.CharRecipe) {
 		c.Sample(map[string]interface{}{"recipe": lit, "entropy": H, "distinct_passwords": len(d.Mass)})
 	}
 	c06Judge(c, key, rp, H, d, "character recipe")
+	if st.Leaves <= 300 && attempts >= 1 {
+		d2 := newDist()
+		st2 := exploreCell(sr.Generate, CellOpt{DepthCut: attempts * r.Length, Fallback: uint32(len(ab)), MaxMenu: 4096, MaxLeaves: 100000, Dev: -1, Chunk: 1}, func(l *Leaf) { d2.add(l) })
+		c.Count("executions", st2.Leaves)
+		c.Count("chunked_source_cells", 1)
+		if !(st2.Capped || st2.TooWide || st2.Uncalibrated) {
+			c06Judge(c, key+" [1-byte reads]", rp, H, d2, "character recipe, source delivering one byte per read")
+		}
+	}
 }
 
 func c06WL(c *core.Ctx, w WLCase, maxLeaves int64) {
@@ -140,6 +149,17 @@ func c06WL(c *core.Ctx, w WLCase, maxLeaves int64) {
 		}
 	}
 	c06Judge(c, key, rp, H, d, "wordlist recipe")
+	// the same cell with a source that delivers one byte per read (legal for
+	// an io.Reader): the distribution, hence the entropy bound, must not change
+	if st.Leaves <= 600 {
+		d2 := newDist()
+		st2 := exploreCell(r.Generate, CellOpt{DepthCut: 64, Fallback: 2, MaxMenu: 20000, MaxLeaves: maxLeaves, Dev: -1, Chunk: 1}, func(l *Leaf) { d2.add(l) })
+		c.Count("executions", st2.Leaves)
+		c.Count("chunked_source_cells", 1)
+		if !(st2.Capped || st2.TooWide || st2.Uncalibrated || d2.CutMass.Sign() != 0) {
+			c06Judge(c, key+" [1-byte reads]", rp, H, d2, "wordlist recipe, source delivering one byte per read")
+		}
+	}
 }
 
 func c06Run(c *core.Ctx) {
@@ -196,7 +216,7 @@ func init() {
 	Register(&core.Check{
 		ID:    "C06",
 		Level: "model_checking",
-		Rule: "the exact output distributions of the complete cells of C02's character recipes and C04's wordlist cases (every outcome combination of every draw, real Generate), plus lists with uncapitalisable, pre-capitalised and twin words under 'one' and 'random'; oracle: max probability (given that a password is returned) <= 2^-Entropy() within 8 float32 ulps, equality when the distribution is uniform, Password.Entropy bit-identical to Entropy(), Entropy() independent of the random stream; " +
+		Rule: "the exact output distributions of the complete cells of C02's character recipes and C04's wordlist cases (every outcome combination of every draw, real Generate), plus lists with uncapitalisable, pre-capitalised and twin words under 'one' and 'random'; oracle: max probability (given that a password is returned) <= 2^-Entropy() within 8 float32 ulps, equality when the distribution is uniform, Password.Entropy bit-identical to Entropy(), Entropy() independent of the random stream; small cells are explored a second time with a source that delivers one byte per read; " +
 			"non-trivial = cases returning more than one distinct password",
 		Assume:      []string{"C01 per-draw uniformity", "probabilities of retrying recipes are conditioned on a password being returned"},
 		Run:         c06Run,
